@@ -36,7 +36,8 @@ def notification_kinds():
     return {
         "picture-set": lambda r, p: notif(r, "picture", [("set", {"jid": J(r), "id": gen.msgid(r)}, [], None)], with_participant=p),
         "picture-delete": lambda r, p: notif(r, "picture", [("delete", {"jid": J(r)}, [], None)], with_participant=p),
-        "status": lambda r, p: notif(r, "status", [("set", {}, [], gen.blob(r, 8))], with_participant=p),
+        # (a cleared status has no body at all; the codec hands an empty body up as None too)
+        "status": lambda r, p: notif(r, "status", [("set", {}, [], r.choice([gen.blob(r, 8), gen.blob(r, 1), gen.unicode_text(r, 1, 30).encode("utf-8"), gen.blob(r, 300), None, b""]))], with_participant=p),
         "contacts-add": lambda r, p: notif(r, "contacts", [("add", {"jid": J(r)}, [], None)], with_participant=p),
         "contacts-remove": lambda r, p: notif(r, "contacts", [("remove", {"jid": J(r)}, [], None)], with_participant=p),
         "contacts-update": lambda r, p: notif(r, "contacts", [("update", {"jid": J(r)}, [], None)], with_participant=p),
